@@ -49,7 +49,11 @@ def classify(code):
     if tail and os.path.basename(tail) not in DATA_MODULES:
         res = 'logic'
         parts = tail.split('/')
-        if len(parts) == 3 and parts[1].startswith('v2_') and parts[2] in ('__init__.py', 'base_datatypes.py'):
+        if code.co_name == '<module>':
+            res = 'anchor'          # a module body running = an import in progress: other threads may meet the half-built module
+        if res == 'anchor':
+            pass
+        elif len(parts) == 3 and parts[1].startswith('v2_') and parts[2] in ('__init__.py', 'base_datatypes.py'):
             res = 'anchor'          # per-version accessors, BASE_DATATYPES construction, module-level code
         elif (tail, code.co_name) in ANCHOR_FUNCS or (tail, getattr(code, 'co_qualname', '')) in ANCHOR_QUALNAMES:
             res = 'anchor'
